@@ -4,6 +4,22 @@ import brokercheck, monitors
 import vlib
 
 
+def _sub_replay(path):
+    """replays of the component checks this check also runs"""
+    import json
+    k = json.load(open(path)).get("kind", "")
+    if k == "queueswap-case":
+        import C19
+        return C19.replay(path)
+    if k == "safequeue-ops":
+        import C03
+        return C03.replay(path)
+    if k == "msg-ops":
+        import stores_lib
+        return stores_lib.replay_msg(json.load(open(path)))
+    return None
+
+
 def kill_witness(res):
     """Known finding F73, re-confirmed on the real msgstorage over the real engine on every run: an acknowledgement is
     durable only after the store's next tick, so a kill inside the tick window brings an acknowledged message back.
@@ -31,7 +47,15 @@ def kill_witness(res):
 def run(res):
     kill_witness(res)
     brokercheck.run(res, "C02", ["Props/C02.v", "Props/C02_history.v"], monitors.monitor_c02, focus="restart")
+    # "each message to at most one consumer at a time" rests on Queue.PopQos inspecting and removing the head in one critical
+    # section (a generated lock fact of the queue component), "never again after a restart" on what the store does with a
+    # delete (the store component): both are re-checked here
+    vlib.also_run(res, "C19", why="queue/queue.go is among C02's anchors: lock discipline of Pop / PopQos and the overflow path")
+    vlib.also_run(res, "C04", "run_core", why="msgstorage/msgstorage.go is among C02's anchors: a deleted key is not written back")
 
 
 def replay(path):
+    r = _sub_replay(path)
+    if r is not None:
+        return r
     return brokercheck.replay(path, monitors.monitor_c02)
